@@ -12,7 +12,7 @@ RULE = ("every table of the bound (group column over <= 3 keys in every order, s
         "literal compositions of the reference pc / histogram; non-trivial = at least one group with two members")
 ASSUMPTIONS = ["float tolerance 1e-12, NaN-equal, inf-equal", "missing cells are kept out of this alphabet (C02 covers them)",
                "pcDelta_grouped(bins=0) may return a Series or a one-column frame: only the per-group values (sorted group order) are compared"]
-REQUIRED_CLASSES = {"all": ["singleton-group", "unsorted-keys", "non-uniform-weights", "all-groups-singleton", "bins=0-form", "two-features", "two-grouping-columns"]}
+REQUIRED_CLASSES = {"all": ["singleton-group", "unsorted-keys", "non-uniform-weights", "all-groups-singleton", "bins=0-form", "two-features", "two-grouping-columns", "grouping-keys-that-collide-when-joined"]}
 MIN_OUTCOMES = 10
 SINGLE_THREAD_RAPIDFUZZ = True
 
@@ -66,6 +66,8 @@ def weights_for(ng):
         out.append(("ones", [1] * ng))
         out.append(("123", [1, 2, 3][:ng]))
         out.append(("312", [3, 1, 2][:ng]))
+        out.append(("tiny", [x * 1e-7 for x in (1, 2, 4)][:ng]))        # only the ratios of the weights matter
+        out.append(("huge", [x * 1e9 for x in (3, 1, 2)][:ng]))
     return out
 
 
@@ -117,6 +119,9 @@ def check_case(case, acc):
         _, g, h, f = case
         acc.cls("two-grouping-columns")
         _check_table(acc, case, "str", [KEYS["str"][i] for i in g], [(7, 3)[i] for i in h], [FEAT[i] for i in f], None)
+        # key tuples whose text would collide if joined ('d_1','2') vs ('d','1_2'); and 1 vs '1'
+        acc.cls("grouping-keys-that-collide-when-joined")
+        _check_table(acc, case, "str", [("d_1", "d")[i] for i in g], [("2", "1_2")[i] for i in h], [FEAT[i] for i in f], None)
     else:
         raise HarnessError("unknown case %r" % (case,))
 
